@@ -2,7 +2,7 @@
    property itself (Spec/LoaderSpec.v c07_okb) on the implementation's outcome. *)
 From Coq Require Import NArith ZArith List Bool Ascii.
 From Coq Require Export String.   (* the generated case files write string literals *)
-From PS Require Import Base.Chars Base.Outcome Model.Yaml Model.LoaderStrings Model.Loader Spec.LoaderSpec Run.Bits.
+From PS Require Import Base.Chars Base.Outcome Model.Yaml Model.LoaderStrings Model.Loader Model.CollLoader Spec.LoaderSpec Proofs.LoaderP Proofs.CollLoaderP Run.Bits.
 Import ListNotations.
 Open Scope N_scope.
 
@@ -27,6 +27,7 @@ Fixpoint ext_lookup (t : list (str * option (list str))) (s : str) : option (lis
 Definition mk_lib (facts : list (str * N)) (exts : list (str * option (list str))) : lib :=
   {| uuid_ok := fun s => N.testbit (fact facts s) 0;
      int_ok := fun s => N.testbit (fact facts s) 1;
+     uuid_key := fun _ => 0;
      re_ok := fun s => negb (N.testbit (fact facts s) 2);   (* bit 2: re.compile fails (strings not listed have no bit set) *)
      cidr_ok := fun s => N.testbit (fact facts s) 3;
      ext_refs := ext_lookup exts |}.
@@ -74,3 +75,25 @@ Definition judge_prop (c : outcome (list N) * outcome (list N) * bool) : N :=
 Definition mkcase (kind : N) (facts : list (str * N)) (exts : list (str * option (list str))) (d : yv)
   (s c : outcome (list N)) (feq : bool) := (kind, facts, exts, d, s, c, feq).
 Definition mkprop (s c : outcome (list N)) (feq : bool) := (s, c, feq).
+
+(* ---- collections: SigmaCollection.from_dicts against Model/Collection.v ---- *)
+Definition mk_lib2 (facts ukeys : list (str * N)) (exts : list (str * option (list str))) : lib :=
+  let L := mk_lib facts exts in
+  {| uuid_ok := uuid_ok L; uuid_key := fact ukeys; int_ok := int_ok L; re_ok := re_ok L; cidr_ok := cidr_ok L;
+     ext_refs := ext_refs L |}.
+(* case: (modelled: loaded through from_dicts, library facts, UUID integers, extended-condition facts, documents,
+          collect_filters, resolve_references, strict outcome, collecting outcome) *)
+Definition judge_coll
+  (c : bool * list (str * N) * list (str * N) * list (str * option (list str)) * list yv * bool * bool
+       * outcome (list N) * outcome (list N)) : N :=
+  let '(modelled, facts, ukeys, exts, ds, cf, rr, istrict, icollect) := c in
+  let L := mk_lib2 facts ukeys exts in
+  let ms := load_coll L false cf rr ds in
+  let mc := load_coll L true cf rr ds in
+  let agree := negb modelled || unmodelled ms || unmodelled mc || (out_eqb ms istrict && out_eqb mc icollect) in
+  bits agree (c07_okb istrict icollect)
+       (modelled && coll_dom ds && is_ok mc)
+       (negb (out_eqb istrict (Ok []))).
+Definition mkcoll (modelled : bool) (facts ukeys : list (str * N)) (exts : list (str * option (list str)))
+  (ds : list yv) (cf rr : bool) (s c : outcome (list N)) :=
+  (modelled, facts, ukeys, exts, ds, cf, rr, s, c).
